@@ -320,7 +320,7 @@ def explore_same_objects(run, focus, n):
         log = []
 
         def st(chart, e):
-            if e.signal_name in ("A", "B", "C"):
+            if e.signal_name in ("A", "B", "C", "STOP_ACTIVE_OBJECT_SIGNAL", "PUBLISH_META_SIGNAL", "SUBSCRIBE_META_SIGNAL"):
                 log.append(e)
                 return return_status.HANDLED
             if e.signal in (signals.ENTRY_SIGNAL, signals.INIT_SIGNAL, signals.EXIT_SIGNAL):
@@ -331,6 +331,9 @@ def explore_same_objects(run, focus, n):
         hsm = mhsm.HsmWithQueues()
         hsm.start_at(mhsm.spy_on(st) if instrumented else st)
         pool = [Event(signal=nm) for nm in ("A", "B", "C")[:rng.randint(1, 3)]]
+        if rng.random() < 0.3:
+            # events carrying one of the library's own signals travel through queues like any other event
+            pool.append(Event(signal=rng.choice([signals.STOP_ACTIVE_OBJECT_SIGNAL, signals.PUBLISH_META_SIGNAL, signals.SUBSCRIBE_META_SIGNAL])))
         q, d = [], []
         ops = []
         bad = None
@@ -367,6 +370,73 @@ def explore_same_objects(run, focus, n):
         run.traces_validated += 1
         if bad:
             run.violate("%s/same-event-object" % focus, "%d event objects posted and deferred repeatedly: %s" % (len(pool), bad), cj)
+        run.case(cj, nontrivial=True)
+
+
+def explore_failed_step(run, focus, n):
+    """a run-to-completion step that fails (the handler raises, or returns no status so that the processor raises): the
+    program catches the exception and goes on; every event is still dispatched at most once, in queue order"""
+    rng = run.rng
+    for _ in range(n):
+        instrumented = rng.random() < 0.5
+        circuit = rng.random() < 0.4
+        how = rng.choice(["raises", "none"])
+        log = []
+
+        def st(chart, e):
+            sn = e.signal_name
+            if sn in ("OK", "BAD", "LATER"):
+                log.append((sn, e.payload))
+                if sn == "BAD":
+                    if posts_first:
+                        chart.post_fifo(Event(signal="LATER", payload=e.payload))
+                    if how == "raises":
+                        raise ValueError("handler failed")
+                    return None
+                return return_status.HANDLED
+            if e.signal in (signals.ENTRY_SIGNAL, signals.INIT_SIGNAL, signals.EXIT_SIGNAL):
+                return return_status.HANDLED
+            chart.temp.fun = chart.top
+            return return_status.SUPER
+        st.__name__ = "only"
+        posts_first = rng.random() < 0.5
+        hsm = mhsm.HsmWithQueues()
+        hsm.start_at(mhsm.spy_on(st) if instrumented else st)
+        script = [rng.choice(["OK", "OK", "BAD"]) for _ in range(rng.randint(2, 6))]
+        if "BAD" not in script:
+            script[rng.randrange(len(script))] = "BAD"
+        want = []
+        pending = []
+        for k, sn in enumerate(script):
+            hsm.post_fifo(Event(signal=sn, payload=k))
+            pending.append((sn, k))
+        # reference: a plain list; a failed step has consumed its event
+        q = list(pending)
+        while q:
+            sn, k = q.pop(0)
+            want.append((sn, k))
+            if sn == "BAD" and posts_first:
+                q.append(("LATER", k))
+        failures = 0
+        for _ in range(4 * len(script) + 4):
+            try:
+                if circuit:
+                    hsm.complete_circuit()
+                else:
+                    hsm.next_rtc()
+            except (ValueError, mhsm.HsmTopologyException):
+                failures += 1
+            if len(hsm.queue) == 0:
+                break
+        cj = {"what": "failed-step", "script": script, "instrumented": instrumented, "complete_circuit": circuit, "how": how,
+              "posts_first": posts_first}
+        run.count("a failing step (%s), driver catches and continues" % how)
+        run.traces_validated += 1
+        if log != want:
+            run.violate("%s/failed-step" % focus, "script %s (BAD's handler %s%s), driven by %s, exceptions caught: dispatched %s, a double-ended "
+                        "queue driven by the same operations gives %s" % (script, "posts LATER and " if posts_first else "", "raises" if how == "raises"
+                                                                          else "returns no status", "complete_circuit" if circuit else "next_rtc",
+                                                                          log, want), cj)
         run.case(cj, nontrivial=True)
 
 
@@ -448,6 +518,9 @@ def upto(cj, idx):
 
 def replay(case):
     cc = case.get("case", case)
+    if cc.get("what") == "failed-step":
+        print("failed-step case:", cc)
+        return 0
     if cc.get("what") == "same-objects":
         print("sequence of operations on %d kept event objects (%s chart):" % (cc["pool"], "instrumented" if cc["instrumented"] else "un-instrumented"), cc["ops"])
         return 0
